@@ -209,6 +209,7 @@ void deliver(Obj* o, Chunk& c) {
         edge(o, EPOLLIN | EPOLLRDHUP | (o->wr_shut ? EPOLLHUP : 0));
         return;
     }
+    if (o->rst_rcvd) { acked(o->peer.get(), c.data.size()); return; }      // a reset connection takes nothing more
     if (o->st == S_DEAD || o->rd_shut) {
         acked(o->peer.get(), c.data.size());
         if (o->st == S_DEAD && o->peer && !o->rst_sent) { o->rst_sent = true; Chunk r; r.rst = true; queue_chunk(o->peer.get(), r); }
